@@ -158,6 +158,17 @@ def main():
             return re.search(rf"self\.{field}\s*(=[^=]|\.clear\(\)|\.truncate\(0\))|mem::take\(&mut self\.{field}\)", head) is not None
         fields = ["memory_blocks", "crashing_thread_context", "principal_mapping"]
         resets = "some true" if all(reset_of(f) for f in fields) else "some false"
+    # init(): which steps are wrapped in `if let Err(e) = … { soft_errors.push(…) }`
+    im = re.search(r"pub fn init\(.*?\n    \}\n", pd, re.S)
+    init_steps = []
+    if im:
+        ib = im.group(0)
+        for name in ["stop_process", "try_filling_missing_info", "enumerate_threads", "enumerate_mappings"]:
+            present = re.search(rf"\b{name}\(", ib) is not None
+            soft = re.search(rf"if let Err\(e\)\s*=\s*\n?\s*self\s*\.?(?:\s*auxv\s*\.)?\s*{name}\(", ib) is not None or \
+                   re.search(rf"if let Err\(e\) =[^;{{]*{name}\(", ib, re.S) is not None
+            if present:
+                init_steps.append((name, soft))
     out = []
     out.append("/- GENERATED by gen/extract.py from /repo's source — do not edit. -/")
     out.append("namespace Mdw.Src\n")
@@ -176,6 +187,8 @@ def main():
     out.append("")
     out.append("def failSpots : List String := [" + ", ".join(f'"{s}"' for s in spots) + "]")
     out.append(f"\n/-- does `dump()` reset memory_blocks / crashing_thread_context / principal_mapping on entry? (none = not recognisable) -/\ndef dumpResetsTransient : Option Bool := {resets}")
+    out.append("\n/-- the fallible steps of PtraceDumper::init: (name, failure is pushed as a soft error) -/\ndef initSteps : List (String × Bool) := [" +
+               ", ".join(f'("{n}", {str(b).lower()})' for n, b in init_steps) + "]")
     out.append("\nend Mdw.Src\n")
     text = "\n".join(out)
     os.makedirs(os.path.dirname(OUT), exist_ok=True)
